@@ -3,6 +3,7 @@ package seq
 import (
 	"fmt"
 	"sync"
+	"verif/engine/world"
 
 	"verif/engine/run"
 	"verif/engine/seqx"
@@ -165,6 +166,24 @@ func boundedJoinOne(p *run.Part, cfg *seqx.Config, cc c16Case) {
 	p.Add(0, 1, 0, 1)
 	if k > 0 && k < total {
 		p.Nontriv(fmt.Sprintf("%v/%d", want, cc.N))
+	}
+	if cc.N == 0 {
+		// the emptied log goes on living: it is written to again, and then ANOTHER log is emptied by a bound of 0.
+		// What one log holds is never what another log holds (an "empty" value shared between logs would be).
+		if _, err := l.Append(world.Ctx, []byte("after-emptying"), nil); err != nil {
+			p.Violate("bounded", "C16:append-after-emptying-failed", fmt.Sprintf("after %s: Join(%d<-%d, size=0), then Append: %v", path, cc.Dst, cc.Src, err), cc)
+			return
+		}
+		o := w.Logs[cc.Src]
+		pv, stack := run.Safe(func() { _, err = o.Join(l, 0) })
+		if pv != nil || err != nil {
+			p.Violate("bounded", "C16:second-emptying-failed", fmt.Sprintf("after %s: Join(%d<-%d, size=0), Append, Join(%d<-%d, size=0): %v %v %s", path, cc.Dst, cc.Src, cc.Src, cc.Dst, pv, err, stack), cc)
+			return
+		}
+		if o.Len() != 0 || o.Values().Len() != 0 || o.Heads().Len() != 0 || l.Len() != 1 {
+			p.Violate("bounded", "C16:emptied-logs-share-state", fmt.Sprintf("after %s: Join(%d<-%d, size=0), Append on %d, Join(%d<-%d, size=0): the second emptied log holds %d entries (values %d, heads %d); the first holds %d (expected 0 and 1)", path, cc.Dst, cc.Src, cc.Dst, cc.Src, cc.Dst, o.Len(), o.Values().Len(), o.Heads().Len(), l.Len()), cc)
+			return
+		}
 	}
 }
 
